@@ -269,6 +269,7 @@ class Run:
     self.studies = []                  # study objects in registration order
     self.delivered = [[] for _ in range(self.n)]   # (trial id) handed to each worker, in order
     self.errors = [None] * self.n
+    self.tlock_mismatch = []
 
   # -- locks ---------------------------------------------------------------------------------
   def on_acquire(self, tid, lock):
@@ -325,6 +326,9 @@ class Run:
       self.sched.ctor_done[tid] = True
     self.sched.yield_point(tid, hot, kind)
     ev = {'w': tid, 'k': kind, 'held': list(self.held[tid])}
+    missing = [l for l in site['locks'] if l not in self.held[tid]]
+    if missing:                       # T-LOCK cross-check: a lexically enclosing lock must be held here
+      self.tlock_mismatch.append('%s without %s' % (kind, missing))
     loc = frame.f_locals
     try:
       if site['cls'] == '_InMemoryFeedback':
@@ -827,7 +831,7 @@ class C16(Prop):
            'acts': acts}
     out = {'obs': obs, 'taken': run.sched.taken, 'yields': run.sched.total_yields,
            'hot': run.sched.hot_seen, 'preempted_sites': run.sched.preempted_sites,
-           'nacts': len(acts), 'flags': env.info['flags'],
+           'nacts': len(acts), 'flags': env.info['flags'], 'tlock_mismatch': run.tlock_mismatch[:5],
            'nsetups': sum(1 for e in run.raw if e['k'] == 'setup.do'),
            'user': [[e['w'], e['act'][0], e['t']] for e in run.raw if e['k'] == 'user'],
            'events': self.property_events(run.raw, case)}
@@ -873,6 +877,8 @@ class C16(Prop):
     if model_out.get('cfg') != out['flags']:
       return 'T-LOCK flags used by the harness %s differ from cfgNow compiled into the driver %s' % (
           out['flags'], model_out.get('cfg'))
+    if out.get('tlock_mismatch'):
+      return 'T-LOCK reports a lexically enclosing lock that is not held at run time: %s' % out['tlock_mismatch']
     tr = out.get('trace') or {}
     if tr.get('driver_failed'):
       return 'driver failed on the log'
